@@ -41,9 +41,9 @@ L253p1 == <<993, 5474, 1992, 9007>>             \* 2^53+1
 L264   == <<1616, 955, 737, 6744, 1844>>        \* 2^64   = 18446744073709551616
 L1e8   == <<6789, 2345, 1>>                     \* 123456789
 
-D1 == <<50, 48, 50, 52, 48, 49, 48, 49, 48, 48, 48, 48, 48, 48>>   \* 20240101000000
-D2 == <<50, 48, 50, 52, 48, 49, 48, 49, 48, 48, 48, 48, 48, 49>>   \* 20240101000001
-D3 == <<49, 57, 57, 57, 49, 50, 51, 49, 50, 51, 53, 57, 53, 57>>   \* 19991231235959
+D1 == <<2024, 1, 1, 0, 0, 0, 0>>             \* 20240101000000
+D2 == <<2024, 1, 1, 0, 0, 1, 0>>             \* 20240101000001
+D3 == <<1999, 12, 31, 23, 59, 59, 0>>        \* 19991231235959
 
 Scalars ==
   { VNull, VBool(0), VBool(1),
@@ -141,7 +141,40 @@ OMaps  == {VMap(q, [i \in 1..Len(q) |-> VInt(i)]) :
              q \in NDSeqs(OSetS, IF Tier = 3 THEN 2 ELSE 3) \cup NDSeqs(OSetB, 2) \cup NDSeqs(OSetN, 2)}
 UOrd == Scalars \cup OStrs \cup OLists \cup ONest \cup OSets \cup OMaps
 
-U == IF Tier \in {1, 2} THEN UEq ELSE UOrd
+(* Values whose TEXT the model does not state - neighbouring doubles (the host
+   writes the shortest numeral that reads back, Val.tla FineNumeral the exact
+   expansion), dates below the year 1000 and inside one second (the host's
+   stamp drops the padding / the sub-second part) - belong to the universes
+   of C06 and C07, not to the runs that export texts (C08: "tx" \in Need). *)
+Rich == "tx" \notin Need
+F03   == VFine(1, <<4595, 5284, 3195, 5404>>, 54)     \* 0.3                 = 5404319552844595 / 2^54
+F0102 == VFine(1, <<1149, 8821, 798, 1351>>, 52)      \* 0.1 + 0.2 = 0.30000000000000004
+F1up  == VFine(1, <<497, 2737, 5996, 4503>>, 52)      \* 1 + 2^-52 = 1.0000000000000002
+F1dn  == VFine(1, <<991, 5474, 1992, 9007>>, 53)      \* 1 - 2^-53 = 0.9999999999999999
+F25up == VFine(-1, <<3121, 3421, 4995, 5629>>, 51)    \* -(2.5 + 2^-51)
+DS1 == <<2024, 1, 1, 0, 0, 0, 444000>>       \* inside the second of D1
+DS2 == <<2024, 1, 1, 0, 0, 0, 444001>>
+DY1 == <<999, 12, 31, 0, 0, 0, 0>>           \* the host writes 13 digits
+DY2 == <<1, 1, 1, 0, 0, 0, 0>>
+DY3 == <<1000, 1, 1, 0, 0, 0, 0>>
+\* strings: e + combining acute against the precomposed letter, the replacement
+\* character, a code point beyond the BMP, CR, digit strings (text order is not
+\* numeric order)
+RichStrs == {VStr(<<101>>), VStr(<<101, 769>>), VStr(<<769>>), VStr(<<233>>), VStr(<<65533>>),
+             VStr(<<128512>>), VStr(<<13>>), VStr(<<50>>), VStr(<<49, 48>>), VStr(<<97, 13>>)}
+RichDates == {VDate(DS1), VDate(DS2), VDate(DY1), VDate(DY2), VDate(DY3)}
+RichScalars == {F03, F0102, F1up, F1dn, F25up} \cup RichDates \cup RichStrs
+\* sets and maps of dates and of close decimals in all insertion orders (C07: enumeration)
+OSetD == {VDate(D1), VDate(DS1), VDate(DY1), VDate(D3)}
+OSetF == {F03, F0102, VDec(1, 2), F1dn}
+RichOrd == {VList(<<x>>) : x \in RichDates \cup {F03, F0102}}
+           \cup {VSet(q) : q \in NDSeqs(OSetD, 3) \cup NDSeqs(OSetF, 2)}
+           \cup {VMap(q, [i \in 1..Len(q) |-> VInt(i)]) : q \in NDSeqs(OSetD, 2) \cup NDSeqs(OSetF, 2)}
+RichEq  == {VList(<<x>>) : x \in {F03, F0102, VDate(DS1), VDate(DS2)}}
+           \cup {VSet(<<F03, F0102>>), VSet(<<F0102, F03>>), VSet(<<VDate(DS1), VDate(D1)>>)}
+
+U == IF Tier \in {1, 2} THEN UEq \cup (IF Rich THEN RichScalars \cup RichEq ELSE {})
+     ELSE UOrd \cup (IF Rich THEN RichScalars \cup RichOrd ELSE {})
 
 USeq == SetToSeq(U)
 N    == Len(USeq)
@@ -151,6 +184,13 @@ N    == Len(USeq)
 NT  == [i \in 1..N |-> Norm(USeq[i])]
 EqT == IF "eq" \in Need
        THEN [i \in 1..N |-> [j \in 1..N |-> Equal(USeq[i], USeq[j])]] ELSE << >>
+\* pairs that are unequal only through the sub-second parts of dates (Val.tla
+\* ResolutionOnly): C06 judges them on consistency alone
+CoT == IF "eq" \in Need THEN [i \in 1..N |-> Coarse(USeq[i])] ELSE << >>
+RoT == IF "eq" \in Need
+       THEN [i \in 1..N |-> [j \in 1..N |->
+               /\ ~EqT[i][j] /\ (CoT[i] # USeq[i] \/ CoT[j] # USeq[j]) /\ Equal(CoT[i], CoT[j])]]
+       ELSE << >>
 LtT == IF "lt" \in Need
        THEN [i \in 1..N |-> [j \in 1..N |-> LessN(NT[i], NT[j])]] ELSE << >>
 StT == IF "lt" \in Need
@@ -198,7 +238,10 @@ CrossKindNeverEqual == EqT[ia][ib] => (a.k = b.k \/ (IsNum(a) /\ IsNum(b)))
 IntDecNumeric ==
   IsNum(a) /\ IsNum(b) =>
     (EqT[ia][ib] <=>
-       IF IsBig(a) \/ IsBig(b) THEN IsBig(a) /\ IsBig(b) /\ a.n = b.n /\ a.s = b.s
+       \* a fine decimal is in lowest terms and outside the small range (WF):
+       \* it equals only itself
+       IF IsFine(a) \/ IsFine(b) THEN a.n = b.n /\ a.s = b.s
+       ELSE IF IsBig(a) \/ IsBig(b) THEN IsBig(a) /\ IsBig(b) /\ a.n = b.n /\ a.s = b.s
        ELSE a.n[1] * Abs(b.n[2]) = b.n[1] * Abs(a.n[2]))
 
 \* y holds the entries of x in another insertion order (entries of one
@@ -256,9 +299,17 @@ NamedOrders ==
   /\ a.k = "list" /\ b.k = "list" /\ IsProperPrefix(a.items, b.items) => LtT[ia][ib]
   /\ a.k = "list" /\ b.k = "list" /\ Len(a.items) >= 1 /\ Len(b.items) >= 1
        /\ Less(a.items[1], b.items[1]) => LtT[ia][ib]
-  /\ IsNum(a) /\ IsNum(b) /\ ~IsBig(a) /\ ~IsBig(b) =>
+  /\ IsNum(a) /\ IsNum(b) /\ ~IsBig(a) /\ ~IsBig(b) /\ ~IsFine(a) /\ ~IsFine(b) =>
        (LtT[ia][ib] <=> a.n[1] * Abs(b.n[2]) < b.n[1] * Abs(a.n[2]))
-  /\ a.k = "date" /\ b.k = "date" => (LtT[ia][ib] <=> SeqLess(a.s, b.s))
+  \* neighbouring doubles, stated on the universe's own values: 0.3 < 0.1 + 0.2,
+  \* 1 - 2^-53 < 1 < 1 + 2^-52, and a fine decimal against its integral neighbours
+  /\ a = F03 /\ b = F0102 => LtT[ia][ib]
+  /\ a = F1dn /\ b \in {VInt(1), VDec(1, 1), F1up} => LtT[ia][ib]
+  /\ a \in {VInt(1), VDec(1, 1)} /\ b = F1up => LtT[ia][ib]
+  /\ a = F25up /\ b \in {VDec(-1, 1), VInt(-1), VInt(0)} => LtT[ia][ib]
+  /\ a = VDec(1, 2) /\ b = F1dn => LtT[ia][ib]
+  \* chronological: by day number, then second of the day, then microsecond
+  /\ a.k = "date" /\ b.k = "date" => (LtT[ia][ib] <=> SeqLess(Instant(a.s), Instant(b.s)))
   /\ StT[ia][ib] = StT[ib][ia]
 
 \* sets and map keys are enumerated in ascending order
@@ -415,6 +466,55 @@ MakerLaws ==
     /\ NumCmp(Make("abs", a).v, VInt(0)) >= 0
 
 -----------------------------------------------------------------------------
+(* C08: the entry points through which a program obtains the text of a value.
+   The statement observes "str(value) / string(v)": the renderer (__repr__)
+   is one of several paths; string(v), the concatenation with a string,
+   interpolation by s(), join() and print() go through the conversion
+   (asString) of the value's class.  For booleans, ints, decimals, dates,
+   lists, sets and maps every path must give THE text form (RenderVia(ob, v)
+   = Render(v): "the text form of a value depends only on the value", and the
+   numeral shapes hold whichever path produced the text).  For a string, NULL
+   and a pattern the conversion is documented to be the payload / the empty
+   string / the payload: stated = FALSE, compared as drift only.
+   RenderVia(ob, v) = [ok: the observer is defined on v, stated, txt].        *)
+RenderObservers == <<"string", "concat", "concat-left", "interp", "join", "print", "println", "elem">>
+
+RenderConv(v) == CASE v.k = "str"  -> v.s
+                   [] v.k = "null" -> << >>
+                   [] v.k = "pat"  -> v.s
+                   [] OTHER        -> Render(v)
+RenderAtomic(v)  == v.k \in {"bool", "int", "dec", "str", "date", "pat"}     \* '' + NULL is NULL
+RenderStated(v)  == v.k \in {"bool", "int", "dec", "date", "list", "set", "map"}
+RECURSIVE RenderHasRef(_)
+RenderHasRef(v) == \/ v.k = "ref"
+                   \/ \E i \in DOMAIN v.items : RenderHasRef(v.items[i])
+                   \/ \E i \in DOMAIN v.vals : RenderHasRef(v.vals[i])
+
+RenderVia(ob, v) ==
+  LET no == [ok |-> FALSE, stated |-> FALSE, txt |-> << >>]
+      cv == [ok |-> TRUE, stated |-> RenderStated(v), txt |-> RenderConv(v)]
+  IN IF RenderHasRef(v) THEN no                       \* streams have no text form the statement names
+     ELSE CASE ob \in {"string", "interp", "join", "print"} -> cv
+            [] ob \in {"concat", "concat-left"} -> IF RenderAtomic(v) THEN cv ELSE no
+            [] ob = "println" -> [cv EXCEPT !.txt = @ \o <<10>>]
+            [] ob = "elem" -> [ok |-> TRUE, stated |-> TRUE, txt |-> Render(v)]   \* string([v]) without the brackets
+
+\* whichever path: one text, of the shape the statement names for the kind
+RenderObserverFree ==
+  mode = "pair" /\ ib = 1 =>
+    \A j \in DOMAIN RenderObservers :
+      LET r == RenderVia(RenderObservers[j], a)
+          t == IF RenderObservers[j] = "println" /\ r.ok THEN SubSeq(r.txt, 1, Len(r.txt) - 1) ELSE r.txt
+      IN r.ok /\ r.stated =>
+           /\ t = TxT[ia]
+           /\ a.k = "int" => IsIntNumeral(Unsigned(t))
+           /\ a.k = "dec" => IsDecNumeral(Unsigned(t))
+\* the conversion is the text form exactly for the stated kinds: that of a
+\* string, NULL or a pattern is never its text form (quotes / NULL / slashes)
+RenderConvUnstated ==
+  mode = "pair" /\ ib = 1 /\ a.k \in {"str", "null", "pat"} => RenderConv(a) # TxT[ia]
+
+-----------------------------------------------------------------------------
 (* Export for binding A: the universe with its text, tokens and whether its
    enumeration order is stated; one row of the pair table per value. *)
 Emit(tag, rec) == IF Export THEN PrintT("@@" \o tag \o "@@" \o ToJson(rec)) ELSE TRUE
@@ -423,7 +523,7 @@ ExportU ==
   mode = "pair" /\ ib = 1 =>
     Emit("UVAL", [i |-> ia, n |-> N, v |-> a, os |-> OrderStated(a)])
 ExportEq ==
-  mode = "pair" /\ ib = 1 => Emit("EQ", [i |-> ia, eq |-> EqT[ia]])
+  mode = "pair" /\ ib = 1 => Emit("EQ", [i |-> ia, eq |-> EqT[ia], ro |-> RoT[ia]])
 ExportLt ==
   mode = "pair" /\ ib = 1 =>
     Emit("LT", [i |-> ia, lt |-> LtT[ia], st |-> StT[ia],
@@ -437,5 +537,11 @@ ExportMk ==
                           LET r == Make(MakerOps[j], a) IN
                           [op |-> MakerOps[j], ok |-> r.ok, k |-> r.k, val |-> r.val, v |-> r.v,
                            txt |-> IF r.val THEN Render(r.v) ELSE << >>]]])
+ExportVia ==
+  mode = "pair" /\ ib = 1 =>
+    Emit("VIA", [i |-> ia,
+                 via |-> [j \in DOMAIN RenderObservers |->
+                            LET r == RenderVia(RenderObservers[j], a) IN
+                            [ob |-> RenderObservers[j], ok |-> r.ok, stated |-> r.stated, txt |-> r.txt]]])
 
 =============================================================================
